@@ -333,7 +333,10 @@ def pick(r, en, sub=None):
 def pt(r, big=False):
     if big or r.random() < 0.15:
         return A([grid(r, 1000, 9000, 3), grid(r, -3, 3, 3)])  # mixed magnitudes
-    return A([grid(r, -30, 30), grid(r, -10, 10)])
+    p = [grid(r, -30, 30), grid(r, -10, 10)]
+    if r.random() < 0.12:
+        p[r.randrange(2)] = 0.0     # a coordinate exactly on an axis: tiny perturbations then change its sign
+    return A(p)
 
 
 def polyline(r, n=None, x0=0.0, y0=0.0):
@@ -963,7 +966,7 @@ def local_variants(r, v, sub=False, setlike=False, ints=True):
         return [(v + 1, "+1")]
     if isinstance(v, float):
         if sub:
-            return [(v + SUB, f"+{SUB}")]
+            return [(v + sg * SUB, f"{'+' if sg > 0 else '-'}{SUB}") for sg in r.sample([1, -1], 2)]
         return [(v + d * r.choice([1, -1]), f"+-{d}") for d in DELTAS]
     if isinstance(v, str):
         return [(v + "x", "str+x")]
@@ -977,10 +980,16 @@ def local_variants(r, v, sub=False, setlike=False, ints=True):
         if n == 0:
             return out
         for idx in sorted({0, n // 2, n - 1, r.randrange(n)}):
-            for d in ([SUB] if sub else [r.choice(DELTAS)]):
+            for d in ([SUB * r.choice([1, -1])] if sub else [r.choice(DELTAS)]):
                 b = flat.copy()
                 b[idx] += d
                 out.append((A(b.reshape(arr.shape)), f"[{idx}]+{d}"))
+        if sub:
+            zeros = [i for i in range(n) if flat[i] == 0.0]
+            if zeros:   # a coordinate on an axis moved below zero by less than the rounding step: rounds to -0.0
+                b = flat.copy()
+                b[r.choice(zeros)] = -SUB / r.choice([1, 20])
+                out.insert(0, (A(b.reshape(arr.shape)), "[axis]-tiny"))
         if arr.ndim == 2 and arr.shape[0] > 3 and not sub:
             out.append((A(arr[:-1]), "drop last row"))
         return out
